@@ -383,7 +383,8 @@ fn small_inputs(format: Format, tier: Tier) -> Vec<Vec<u8>> {
         files.push(rf(format, &[0, 2], true, true, 2, 1, None));
         files.push(rf(format, &[0, 4, 0], false, true, 0, 0, None));
     } else {
-        for &d in &[Defect::BadSep, Defect::QualLonger, Defect::TruncLine(3), Defect::TruncAfter(1), Defect::BadStart] {
+        // every defect kind (incl. a truncation inside each of the four lines and after each terminator)
+        for &d in FASTQ_DEFECTS.iter().chain([Defect::TruncLine(3)].iter()) {
             let is_trunc = matches!(d, Defect::TruncLine(_) | Defect::TruncAfter(_));
             files.push(rf(format, &[0, 2], false, true, 0, 0, Some((1, d))));
             if !is_trunc {
